@@ -3,3 +3,5 @@ open Jomini.Props.C02
 #print axioms C02_scalar_dispatch
 #print axioms C02_option_unknown
 #print axioms C02_stream_eq_spec_partial
+#print axioms C02_tape_eq_spec_partial
+#print axioms C02_paths_agree_partial
